@@ -66,6 +66,28 @@ func e(err error) string {
 	return "err " + ErrName(err, errs)
 }
 
+// ownPBKDF2: PBKDF2-HMAC-SHA512 from the standard library's hmac only (independent of src/cipher/pbkdf2)
+func ownPBKDF2(pw, salt []byte, iter, n int) []byte {
+	var out []byte
+	for blk := 1; len(out) < n; blk++ {
+		m := hmac.New(sha512.New, pw)
+		m.Write(salt)                                                                //nolint
+		m.Write([]byte{byte(blk >> 24), byte(blk >> 16), byte(blk >> 8), byte(blk)}) //nolint
+		u := m.Sum(nil)
+		t := append([]byte{}, u...)
+		for i := 1; i < iter; i++ {
+			m = hmac.New(sha512.New, pw)
+			m.Write(u) //nolint
+			u = m.Sum(nil)
+			for j := range t {
+				t[j] ^= u[j]
+			}
+		}
+		out = append(out, t...)
+	}
+	return out[:n]
+}
+
 func parseIdx(s string) []uint32 {
 	if s == "-" || s == "" {
 		return nil
@@ -127,6 +149,16 @@ func exec(op string) string {
 		b, err := bip39.NewSeed(string(PHex(f[1])), string(PHex(f[2])))
 		if err != nil {
 			return e(err)
+		}
+		return "ok " + Hex(b)
+	case "seednfkd": // seednfkd <mnemonic> <passphrase as given, NOT in NFKD> <its NFKD form>
+		b, err := bip39.NewSeed(string(PHex(f[1])), string(PHex(f[2])))
+		if err != nil {
+			return e(err)
+		}
+		// classify (without the code under test): did the implementation salt with the bytes as given?
+		if Hex(b) == Hex(ownPBKDF2(PHex(f[1]), append([]byte("mnemonic"), PHex(f[2])...), 2048, 64)) {
+			return "ok " + Hex(b) + " salt=as-given"
 		}
 		return "ok " + Hex(b)
 	case "vec39": // published vector: entropy, mnemonic, seed (passphrase TREZOR)
@@ -487,7 +519,7 @@ func gen(r *Rng, tier string, emit func(string)) {
 	{
 		m := refMnemonic(make([]byte, 16))
 		for _, p := range nonNFKD {
-			emit("seed " + Hex([]byte(m)) + " " + Hex([]byte(p[0])) + " " + Hex([]byte(p[1])))
+			emit("seednfkd " + Hex([]byte(m)) + " " + Hex([]byte(p[0])) + " " + Hex([]byte(p[1])))
 		}
 	}
 	// ---- BIP32
